@@ -308,6 +308,10 @@ def load_known():
 
 
 def write_evidence(mod, tier, seed, cov, wall, violations, assumptions=None):
+    global EVID
+    if os.path.realpath(build.REPO) != "/repo":
+        # runs against a scratch tree (VERIF_REPO=...) must not overwrite the evidence of /repo itself
+        EVID = os.path.join(OUT, "evidence-scratch")
     os.makedirs(EVID, exist_ok=True)
     ev = {"property_id": mod.ID, "tier": tier, "seed": seed, "level": getattr(mod, "LEVEL", "exploration"),
           "coverage": cov, "assumptions": assumptions or getattr(mod, "ASSUMPTIONS", []),
